@@ -27,6 +27,7 @@ type Cfg struct {
 	Mode      uint32
 	FileName  string
 	Custom    bool // custom format name instead of the default
+	FmtKind   int  `json:",omitempty"` // which custom name: 0 "custom-format", 1 "JSON", 2 "text ", 3 " json", 4 "Custom-Format"
 	NestedDir bool
 }
 
@@ -134,8 +135,9 @@ func NewRunner(root string, c Cfg) *Runner {
 	s := &eventlogger.FileSink{Path: dir, FileName: c.FileName, Mode: os.FileMode(c.Mode), MaxBytes: c.MaxBytes, MaxFiles: c.MaxFiles,
 		MaxDuration: time.Duration(c.MaxDurMs) * time.Millisecond, TimestampOnlyOnRotate: c.TSOnly}
 	if c.Custom {
-		s.Format = "custom-format"
-		r.format = "custom-format"
+		// format names are exact strings: some are equal to a common name only after trimming or case folding
+		r.format = [...]string{"custom-format", "JSON", "text ", " json", "Custom-Format"}[c.FmtKind%5]
+		s.Format = r.format
 	}
 	r.Sink = s
 	r.ext = filepath.Ext(c.FileName)
@@ -442,6 +444,10 @@ func (r *Runner) Step(op Op) *Violation {
 			}
 		} else {
 			ev.Formatted["some-other-format"] = op.Data
+		}
+		if folded := strings.ToLower(strings.TrimSpace(r.format)); folded != r.format {
+			// another representation of the event under the folded spelling of the sink's format name
+			ev.Formatted[folded] = []byte("DECOY-under-the-folded-format-name\n")
 		}
 		tb := time.Now()
 		out, err := r.Sink.Process(context.Background(), ev)
